@@ -2,10 +2,11 @@
 
 Engine N: the product {simple, bound, bound inheriting from its PreparedStatement, batch} x each
 statement-level option set / unset x profile (or, legacy mode, session/cluster) value custom /
-default x how the profile is selected x timeout argument x protocol version is executed through a
-real Session over the virtual node; the ResponseFuture attributes, the request frame the node
-received (parsed by the independent wire codec) and the rows the caller gets are compared with the
-precedence rule vt/spec/options.py.
+default / falsy x how the profile is selected x timeout argument x explicit host x protocol version
+is executed through a real Session over the virtual node, page after page; the ResponseFuture
+attributes, every request frame the node received (parsed by the independent wire codec) and the
+rows the caller gets are compared with the precedence rule vt/spec/options.py.  What the reference
+is told about the defaults is what the harness CONFIGURED, never what the driver stored.
 """
 import copy
 import itertools
@@ -19,25 +20,37 @@ from vt.spec import options as ref
 META = {
     'level': 'exploration',
     'engine': 'N',
-    'technique': 'bounded-exhaustive product of statement kinds x own options x profile/session defaults x configuration mode x timeout argument x protocol version on a real Session, precedence reference',
+    'technique': 'bounded-exhaustive product of statement kinds x own options x profile/session defaults (default, custom, falsy) x configuration mode x timeout argument x explicit host x protocol version on a real Session, every page request of the execution, precedence reference fed with the configured values',
     'text': 'Statement kinds {SimpleStatement, BoundStatement with own options, BoundStatement inheriting the options of its PreparedStatement, '
-            'BatchStatement} x consistency_level in {unset, QUORUM, ANY (numeric value 0)} x serial_consistency_level / retry_policy set or unset x fetch_size in {unset, 7, 0, None} x the same '
-            'four defaults custom or default on the profile (legacy mode: Session/Cluster attributes) x the profile-only options (request_timeout, row_factory, '
-            'load_balancing_policy, speculative_execution_policy) custom or default x profile selection {default profile, named profile, cloned instance} '
-            'or legacy mode x timeout argument {omitted, None, 3.5} x protocol 2/4/5.  Checked: ResponseFuture.timeout / _retry_policy / row_factory / '
+            'BatchStatement} x consistency_level in {unset, QUORUM, ANY (numeric value 0)} x serial_consistency_level / retry_policy set or unset x fetch_size in {unset, 7, 0, None} x the '
+            'defaults on the profile (legacy mode: Session/Cluster attributes): consistency in {not given, THREE, ANY (0)}, serial consistency / retry policy custom or not given, '
+            'the profile-only options in {not given; 4.25 s, dict_factory, custom load-balancing policy, constant speculative execution; request_timeout 0.0, tuple_factory, custom policy; '
+            'request_timeout None, dict_factory, custom policy, constant speculative execution}, Session.default_fetch_size in {5000 default, 11, 0, None} x profile selection {default profile, '
+            'named profile, cloned instance (quick: one protocol version)} or legacy mode x timeout argument {omitted, None, 3.5, 0.0} x {routed by the policy, explicit host= (paged executions)} x protocol 2/4/5.  '
+            'In the named / cloned modes the default profile is a decoy: every option differs from the profile in use and its load-balancing policy routes to the other host.  '
+            'An execution whose effective fetch size is positive is paged: the node hands out two paging states and the caller fetches pages 2 and 3 with start_fetching_next_page(); '
+            'page 3 is answered by a read timeout so that the retry policy in effect is consulted.  '
+            'Checked against the configured values, for the first and for every follow-up request: ResponseFuture.timeout / _retry_policy / row_factory / '
             '_load_balancer / speculative plan / message fields; the received frame carries the effective consistency, serial consistency (absent when none) '
-            'and page size (absent for None/0), and reached the first host of the effective load-balancing policy; the client timer equals the effective timeout; '
-            'the rows come back in the shape of the effective row factory.',
+            'and page size (absent for None/0) and the paging state handed out, and reached the explicit host or else the first host of the effective load-balancing policy; '
+            'the client timer equals the effective timeout; the rows come back in the shape of the effective row factory; the read timeout of the last page is put to the '
+            'effective retry policy and to no other.',
     'note': 'Statements are idempotent (otherwise no speculative plan is made).  A BATCH frame of protocol 2 cannot carry a serial consistency; that field is '
-            'not demanded there.  fetch_size 0 and None both mean "no paging": the frame must then carry no page size.',
+            'not demanded there.  fetch_size 0 and None both mean "no paging": the frame must then carry no page size.  On follow-up pages either the speculative timer or '
+            '(plan used up) the plain timeout timer is accepted.  The documented defaults (LOCAL_ONE, no serial consistency, a plain RetryPolicy, 10 s, named tuples, 5000 rows) are '
+            'part of the reference.',
     'design_ref': 'C46',
 }
 
 QUERY = 'SELECT v FROM t'
 ROWS_COLS = [('v', wire.T_INT)]
-TIMEOUT_ARGS = ['omitted', None, 3.5]
+TIMEOUT_ARGS = ['omitted', None, 3.5, 0.0]
 FETCHES = ['unset', 7, 0, None]
+DFETCHES = ['default', 11, 0, None]
 KINDS = ['simple', 'bound', 'bound_inherit', 'batch']
+PS = [b'PS1', b'PS2']        # the paging states the node hands out; the request carrying the last one is answered by a read timeout
+DEFAULT_RETRY = ('a plain RetryPolicy',)
+DOCUMENTED_DEFAULT_FETCH = 5000
 
 
 def addr(i):
@@ -47,16 +60,43 @@ def addr(i):
 class Answer(object):
     def __call__(self, server, conn, stream, req):
         if req['op'] == 'QUERY' and req.get('query') == QUERY or req['op'] == 'EXECUTE':
-            return wire.OP_RESULT, wire.result_rows(ROWS_COLS, [[1]], req['version'])
+            v = req['version']
+            size, state = req.get('page_size'), req.get('paging_state')
+            nxt = None
+            if size is not None and size > 0:
+                if state is None:
+                    nxt = PS[0]
+                elif state in PS[:-1]:
+                    nxt = PS[PS.index(state) + 1]
+                elif state == PS[-1]:
+                    return wire.OP_ERROR, wire.error(wire.ERR_READ_TIMEOUT, 'rt', cl=req.get('consistency') or 0, received=1, blockfor=2, data_present=False)
+            return wire.OP_RESULT, wire.result_rows(ROWS_COLS, [[1]], v, paging_state=nxt)
         return None
 
 
+def retry_classes():
+    from cassandra.policies import RetryPolicy
+
+    class Recording(RetryPolicy):
+        def __init__(self, name):
+            self.name = name
+            self.consulted = 0
+
+        def on_read_timeout(self, *a, **kw):
+            self.consulted += 1
+            return self.RETHROW, None
+
+        def __repr__(self):
+            return '<retry policy %s>' % self.name
+    return Recording
+
+
 def build(group):
-    """-> dict with the world, the session and what the reference needs to know about the defaults"""
+    """-> dict with the world, the session and what the reference needs to know about the defaults (as configured)"""
     from cassandra import ConsistencyLevel as CL
     from cassandra.cluster import ExecutionProfile, EXEC_PROFILE_DEFAULT
-    from cassandra.policies import RetryPolicy, ConstantSpeculativeExecutionPolicy, NoSpeculativeExecutionPolicy
-    from cassandra.query import dict_factory, named_tuple_factory
+    from cassandra.policies import ConstantSpeculativeExecutionPolicy, NoSpeculativeExecutionPolicy
+    from cassandra.query import dict_factory, named_tuple_factory, tuple_factory, ordered_dict_factory
     mode, pv, pbits, pextra, dfetch = group
     p_cl, p_serial, p_retry = pbits
     srv = VServer([HostSpec(addr(1)), HostSpec(addr(2))])
@@ -64,23 +104,28 @@ def build(group):
     w = World(srv)
     w.__enter__()
     try:
-        class MarkRetry(RetryPolicy):
-            pass
-        lbp_default = reqworld.FixedOrderPolicy(order=[addr(1), addr(2)])
-        lbp_custom = reqworld.FixedOrderPolicy(order=[addr(2), addr(1)])
-        spec_custom = ConstantSpeculativeExecutionPolicy(1.5, 1)
-        custom_retry = MarkRetry()
+        Recording = retry_classes()
+        order = [addr(2), addr(1)] if pextra else [addr(1), addr(2)]
+        lbp_used = reqworld.FixedOrderPolicy(order=order)
+        custom_retry = Recording('of the profile/cluster')
+        decoy_retry = Recording('of the decoy default profile')
         d = {}
-        d['cl'] = CL.THREE if p_cl else CL.LOCAL_ONE
+        d['cl'] = {0: CL.LOCAL_ONE, 1: CL.THREE, 2: CL.ANY}[p_cl]
         d['serial'] = CL.LOCAL_SERIAL if p_serial else None
-        d['timeout'] = 4.25 if pextra else 10.0
-        d['row_factory'] = dict_factory if pextra else named_tuple_factory
-        d['spec'] = 'constant' if pextra else 'none'
-        d['first_host'] = addr(2) if pextra else addr(1)
+        d['timeout'] = {0: 10.0, 1: 4.25, 2: 0.0, 3: None}[pextra]
+        d['row_factory'] = {0: named_tuple_factory, 1: dict_factory, 2: tuple_factory, 3: dict_factory}[pextra]
+        d['spec'] = 'constant' if pextra in (1, 3) else 'none'
+        d['first_host'], d['other_host'] = order
+        d['retry'] = custom_retry if p_retry else DEFAULT_RETRY
+        d['lbp'] = lbp_used
+        d['fetch'] = DOCUMENTED_DEFAULT_FETCH if dfetch == 'default' else dfetch
+
+        def spec_policy():
+            return ConstantSpeculativeExecutionPolicy(1.5, 1) if d['spec'] == 'constant' else NoSpeculativeExecutionPolicy()
         ep_arg = None
         if mode == 'legacy':
             d['spec'] = 'none'
-            kw = dict(load_balancing_policy=lbp_custom if pextra else lbp_default)
+            kw = dict(load_balancing_policy=lbp_used)
             if p_retry:
                 kw['default_retry_policy'] = custom_retry
             cluster = w.make_cluster(protocol_version=pv, **kw)
@@ -93,55 +138,46 @@ def build(group):
             if pextra:
                 session.default_timeout = d['timeout']
                 session.row_factory = d['row_factory']
-            d['retry'] = custom_retry if p_retry else cluster.default_retry_policy
-            d['lbp'] = cluster.load_balancing_policy
         else:
-            def profile(custom):
-                kw = dict(load_balancing_policy=(lbp_custom if pextra else lbp_default) if custom else reqworld.FixedOrderPolicy(order=[addr(1), addr(2)]))
-                if custom:
-                    if p_cl:
-                        kw['consistency_level'] = d['cl']
-                    if p_serial:
-                        kw['serial_consistency_level'] = d['serial']
-                    if p_retry:
-                        kw['retry_policy'] = custom_retry
-                    if pextra:
-                        kw.update(request_timeout=d['timeout'], row_factory=d['row_factory'], speculative_execution_policy=spec_custom)
-                return ExecutionProfile(**kw)
+            def own_options():
+                kw = {}
+                if p_cl:
+                    kw['consistency_level'] = d['cl']
+                if p_serial:
+                    kw['serial_consistency_level'] = d['serial']
+                if p_retry:
+                    kw['retry_policy'] = custom_retry
+                if pextra:
+                    kw.update(request_timeout=d['timeout'], row_factory=d['row_factory'], speculative_execution_policy=spec_policy())
+                return kw
+
+            def decoy():
+                # the default profile when another one is used: every option differs, the policy routes to the other host
+                return ExecutionProfile(load_balancing_policy=reqworld.FixedOrderPolicy(order=order[::-1]), consistency_level=CL.TWO,
+                                        serial_consistency_level=CL.SERIAL, retry_policy=decoy_retry, request_timeout=7.5,
+                                        row_factory=ordered_dict_factory, speculative_execution_policy=ConstantSpeculativeExecutionPolicy(0.75, 1))
             if mode == 'profile-default':
-                profs = {EXEC_PROFILE_DEFAULT: profile(True)}
-                used = profs[EXEC_PROFILE_DEFAULT]
-            else:
-                profs = {EXEC_PROFILE_DEFAULT: profile(False), 'other': profile(True)}
-                used = profs['other']
+                profs = {EXEC_PROFILE_DEFAULT: ExecutionProfile(load_balancing_policy=lbp_used, **own_options())}
+            elif mode == 'profile-named':
+                profs = {EXEC_PROFILE_DEFAULT: decoy(), 'other': ExecutionProfile(load_balancing_policy=lbp_used, **own_options())}
                 ep_arg = 'other'
+            elif mode == 'profile-clone':
+                profs = {EXEC_PROFILE_DEFAULT: decoy(), 'other': ExecutionProfile(load_balancing_policy=lbp_used)}
+            else:
+                raise ValueError(mode)
             cluster = w.make_cluster(protocol_version=pv, execution_profiles=profs)
             session = cluster.connect(wait_for_all_pools=True)
             w.settle()
             if mode == 'profile-clone':
-                # an instance derived from the default profile, carrying the custom values
-                upd = {}
-                if p_cl:
-                    upd['consistency_level'] = d['cl']
-                if p_serial:
-                    upd['serial_consistency_level'] = d['serial']
-                if p_retry:
-                    upd['retry_policy'] = custom_retry
-                if pextra:
-                    upd.update(request_timeout=d['timeout'], row_factory=d['row_factory'], speculative_execution_policy=spec_custom,
-                               load_balancing_policy=used.load_balancing_policy)
-                ep_arg = session.execution_profile_clone_update('other' if pextra else EXEC_PROFILE_DEFAULT, **upd)
-                used = ep_arg
-            d['retry'] = used.retry_policy
-            d['lbp'] = used.load_balancing_policy
-            if not p_retry and type(d['retry']) is not RetryPolicy:
-                raise AssertionError('default retry policy is %r' % (d['retry'],))
+                # an instance derived from a registered profile, carrying the custom values
+                ep_arg = session.execution_profile_clone_update('other', **own_options())
         if dfetch != 'default':
             session.default_fetch_size = dfetch
-        d['fetch'] = session.default_fetch_size
         prepared = session.prepare('SELECT v FROM t WHERE k=0')
         prepared.is_idempotent = True
-        return dict(w=w, srv=srv, cluster=cluster, session=session, d=d, ep_arg=ep_arg, prepared=prepared, marks=(MarkRetry,))
+        hosts = dict((h.endpoint.address, h) for h in cluster.metadata.all_hosts())
+        return dict(w=w, srv=srv, cluster=cluster, session=session, d=d, ep_arg=ep_arg, prepared=prepared, hosts=hosts,
+                    recorders=[custom_retry, decoy_retry], Recording=Recording)
     except BaseException:
         w.__exit__()
         raise
@@ -183,143 +219,244 @@ def make_statement(kind, own, env, stmt_retry):
     raise ValueError(kind)
 
 
-def run_group(group, only=None):
+def shape_of(rows):
+    if not rows:
+        return repr(rows)
+    r = rows[0]
+    if isinstance(r, dict):
+        return 'dict' if type(r) is dict else type(r).__name__
+    if hasattr(r, '_fields'):
+        return 'namedtuple'
+    if type(r) is tuple:
+        return 'tuple'
+    return type(r).__name__
+
+
+WANT_SHAPE = {'dict_factory': 'dict', 'named_tuple_factory': 'namedtuple', 'tuple_factory': 'tuple'}
+
+
+def run_case(part, env, group, kind, own, targ, harg, stmt_retry):
     from cassandra import ConsistencyLevel as CL
-    from cassandra.cluster import EXEC_PROFILE_DEFAULT
     from cassandra.policies import RetryPolicy
+    mode, pv, pbits, pextra, dfetch = group
+    w, srv, session, d = env['w'], env['srv'], env['session'], env['d']
+    s_cl, s_serial, s_retry, s_fetch = own
+    case = {'group': list(group[:2]) + [list(pbits), pextra, dfetch], 'kind': kind, 'own': list(own), 'timeout_arg': targ, 'host_arg': harg}
+    part.count('evaluations')
+    stmt = make_statement(kind, own, env, stmt_retry)
+    kw = {}
+    if targ != 'omitted':
+        kw['timeout'] = targ
+    if env['ep_arg'] is not None:
+        kw['execution_profile'] = env['ep_arg']
+    if harg == 'explicit':
+        kw['host'] = env['hosts'][d['other_host']]
+    # ---- expectation by the precedence rule, from the configured values
+    resolved = dict(
+        target=ref.target(d['first_host'], d['other_host'] if harg == 'explicit' else None),
+        consistency=ref.effective(own_cl(s_cl) if s_cl else ref.UNSET, d['cl']),
+        serial_consistency=ref.effective(CL.SERIAL if s_serial else ref.UNSET, d['serial']),
+        retry_policy=ref.effective(stmt_retry if s_retry else ref.UNSET, d['retry']),
+        fetch_size=ref.effective(ref.UNSET if s_fetch == 'unset' else s_fetch, d['fetch']),
+        timeout=ref.effective(ref.UNSET if targ == 'omitted' else targ, d['timeout']),
+        row_factory=d['row_factory'])
+    resolved['page_size'] = ref.wire_page_size(resolved['fetch_size']) if kind != 'batch' else None
+    e_fetch = resolved['fetch_size']
+    where = '%s/%s' % (kind, 'legacy' if mode == 'legacy' else mode)
+    overriding = sum([bool(s_cl), s_serial, s_retry, s_fetch != 'unset', targ != 'omitted', harg != 'lbp'])
+    if overriding and (any(pbits) or pextra):
+        part.mark_nontrivial(repr((group, kind, own, targ, harg)))
+    recorders = env['recorders'] + [stmt_retry]
+
+    def bad(option, level, got, want, page=1):
+        part.violation('C46/%s/%s/%s%s' % (option, level, where, '' if page == 1 else '/later-page'),
+                       '%s in effect (%s, request for page %d): %r, precedence rule gives %r [statement %s with own options cl=%s serial=%s retry=%s fetch_size=%r, '
+                       'timeout argument %r, host argument %s; defaults as configured (%s): %r; protocol v%d]'
+                       % (option, level, page, got, want, kind, bool(s_cl), bool(s_serial), bool(s_retry), s_fetch, targ, harg, mode,
+                          dict((k, (v if not callable(v) else getattr(v, '__name__', repr(v)))) for k, v in d.items() if k != 'lbp'), pv), case)
+
+    def check_future(f, page):
+        e = ref.request_options(page, resolved)
+        if f.message.consistency_level != e['consistency']:
+            bad('consistency_level', 'future', f.message.consistency_level, e['consistency'], page)
+        if f.message.serial_consistency_level != e['serial_consistency']:
+            bad('serial_consistency_level', 'future', f.message.serial_consistency_level, e['serial_consistency'], page)
+        want = e['retry_policy']
+        if (type(f._retry_policy) is not RetryPolicy) if want is DEFAULT_RETRY else (f._retry_policy is not want):
+            bad('retry_policy', 'future', f._retry_policy, want, page)
+        if kind != 'batch' and f.message.fetch_size != e_fetch:
+            bad('fetch_size', 'future', f.message.fetch_size, e_fetch, page)
+        if f.timeout != e['timeout'] or (f.timeout is None) != (e['timeout'] is None):
+            bad('timeout', 'future', f.timeout, e['timeout'], page)
+        if f.row_factory is not e['row_factory']:
+            bad('row_factory', 'future', getattr(f.row_factory, '__name__', f.row_factory), e['row_factory'].__name__, page)
+        if f._load_balancer is not d['lbp']:
+            bad('load_balancing_policy', 'future', f._load_balancer, d['lbp'], page)
+        plan = type(f._spec_execution_plan).__name__
+        want_plan = 'ConstantSpeculativeExecutionPlan' if d['spec'] == 'constant' else 'NoSpeculativeExecutionPlan'
+        if plan != want_plan:
+            bad('speculative_execution_policy', 'future', plan, want_plan, page)
+
+    def check_timers(timers, page):
+        e_timeout = ref.request_options(page, resolved)['timeout']
+        plain = [('_on_timeout', round(e_timeout, 6))] if e_timeout is not None else []
+        if d['spec'] == 'constant' and (e_timeout is None or e_timeout > 1.5):
+            accepted = [[('_on_speculative_execute', 1.5)]] + ([plain] if page > 1 else [])
+        else:
+            accepted = [plain]
+        if timers not in accepted:
+            bad('timeout', 'timer', timers, accepted[0] if len(accepted) == 1 else accepted, page)
+
+    def check_frame(reqs, page):
+        """-> the frame, or None when it cannot be judged"""
+        e = ref.request_options(page, resolved)
+        if len(reqs) != 1:
+            part.violation('C46/frames/%s' % where, '%d request frames for page %d of one execution: %r, case %r' % (len(reqs), page, reqs, case), case)
+            return None
+        host, r = reqs[0]
+        want_op = {'simple': 'QUERY', 'batch': 'BATCH'}.get(kind, 'EXECUTE')
+        if r['op'] != want_op or r.get('trailing'):
+            part.violation('C46/frames/%s' % where, 'frame %r for page %d of %r' % (r, page, case), case)
+            return None
+        if r.get('consistency') != e['consistency']:
+            bad('consistency_level', 'wire', r.get('consistency'), e['consistency'], page)
+        if not (kind == 'batch' and pv < 3) and r.get('serial_consistency') != e['serial_consistency']:
+            bad('serial_consistency_level', 'wire', r.get('serial_consistency'), e['serial_consistency'], page)
+        if kind != 'batch' and r.get('page_size') != e['page_size']:
+            bad('fetch_size', 'wire', r.get('page_size'), e['page_size'], page)
+        if kind != 'batch' and r.get('paging_state') != (None if page == 1 else PS[page - 2]):
+            part.violation('C46/frames/paging-state/%s' % where, 'request for page %d carries paging state %r: case %r' % (page, r.get('paging_state'), case), case)
+            return None
+        if host != e['target']:
+            bad('load_balancing_policy' if harg == 'lbp' else 'explicit_host', 'wire', host, e['target'], page)
+        return r
+
+    def exchange(start):
+        """run `start`, -> (its result or the exception it raised, timers armed by it, frames the node got)"""
+        n0 = len(srv.received)
+        now = w.clock.now
+        out = start()
+        timers = [(getattr(t.callback, '__name__', '?'), round(t.end - now, 6)) for t in w.live_timers()]
+        w.pump()
+        reqs = [(w.conns[vid].endpoint.address, r) for vid, _, r in srv.received[n0:] if r['op'] in ('QUERY', 'EXECUTE', 'BATCH')]
+        return out, timers, reqs
+
+    # ---- first request
+    try:
+        f, timers, reqs = exchange(lambda: session.execute_async(stmt, **kw))
+    except Exception as e:     # noqa
+        part.violation('C46/raised/%s/%s' % (kind, type(e).__name__), 'execute_async raised %r for %r' % (e, case), case)
+        return
+    check_future(f, 1)
+    check_timers(timers, 1)
+    r = check_frame(reqs, 1)
+    if r is None:
+        return
+    pages = 1
+    if kind != 'batch':
+        try:
+            rows = f.result().current_rows
+        except Exception as e:      # noqa
+            part.violation('C46/result/%s/%s' % (where, type(e).__name__), 'result() raised %r for %r' % (e, case), case)
+            return
+        if shape_of(rows) != WANT_SHAPE[d['row_factory'].__name__]:
+            bad('row_factory', 'rows', shape_of(rows), WANT_SHAPE[d['row_factory'].__name__])
+        # ---- the follow-up requests of a paged execution
+        if resolved['page_size'] is not None and r.get('page_size') == resolved['page_size']:
+            if not f.has_more_pages:
+                part.violation('C46/paging/%s' % where, 'the node handed out a paging state, has_more_pages is False: %r' % (case,), case)
+                return
+            for page in range(2, len(PS) + 2):
+                before = [x.consulted for x in recorders]
+                try:
+                    _, timers, reqs = exchange(f.start_fetching_next_page)
+                except Exception as e:     # noqa
+                    part.violation('C46/raised/next-page/%s/%s' % (kind, type(e).__name__), 'start_fetching_next_page raised %r for page %d of %r' % (e, page, case), case)
+                    return
+                part.count('followup_requests')
+                pages = page
+                check_future(f, page)
+                check_timers(timers, page)
+                if check_frame(reqs, page) is None:
+                    return
+                consulted = [x for x, b in zip(recorders, before) if x.consulted != b]
+                if page <= len(PS):
+                    try:
+                        rows = f.result().current_rows
+                    except Exception as e:      # noqa
+                        part.violation('C46/result/%s/%s' % (where, type(e).__name__), 'result() of page %d raised %r for %r' % (page, e, case), case)
+                        return
+                    if shape_of(rows) != WANT_SHAPE[d['row_factory'].__name__]:
+                        bad('row_factory', 'rows', shape_of(rows), WANT_SHAPE[d['row_factory'].__name__], page)
+                    want_consulted = []
+                else:
+                    # the node answered with a read timeout: the retry policy in effect decides (all of them rethrow)
+                    try:
+                        f.result()
+                        got = 'a result'
+                    except Exception as e:      # noqa
+                        got = type(e).__name__
+                    if got != 'ReadTimeout':
+                        part.violation('C46/result/last-page/%s' % where, 'the read timeout answering the request for page %d ended as %s: %r' % (page, got, case), case)
+                        return
+                    e_retry = ref.request_options(page, resolved)['retry_policy']
+                    want_consulted = [] if e_retry is DEFAULT_RETRY else [e_retry]
+                if consulted != want_consulted:
+                    bad('retry_policy', 'consulted', consulted, want_consulted, page)
+    part.outcome((kind, resolved['consistency'], resolved['serial_consistency'], resolved['page_size'] if kind != 'batch' else '-',
+                  resolved['timeout'], 'pages=%d' % pages))
+    part.sample(dict(case, frame=dict((k, r.get(k)) for k in ('op', 'consistency', 'serial_consistency', 'page_size')),
+                     timeout=f.timeout, host=reqs[0][0], pages=pages), limit=1)
+
+
+def run_group(group, only=None):
     part = Part()
     mode, pv, pbits, pextra, dfetch = group
     env = build(group)
-    w, srv, session, d = env['w'], env['srv'], env['session'], env['d']
-
-    class StmtRetry(RetryPolicy):
-        pass
-    stmt_retry = StmtRetry()
+    d = env['d']
+    stmt_retry = env['Recording']('of the statement')
     try:
         for kind in KINDS:
             fetches = FETCHES if kind != 'batch' else ['unset']
             for s_cl, s_serial, s_retry, s_fetch in itertools.product((0, 1, 2), (0, 1), (0, 1), fetches):
+                own = (s_cl, s_serial, s_retry, s_fetch)
+                paged = kind != 'batch' and ref.wire_page_size(ref.effective(ref.UNSET if s_fetch == 'unset' else s_fetch, d['fetch'])) is not None
                 for targ in TIMEOUT_ARGS:
-                    own = (s_cl, s_serial, s_retry, s_fetch)
-                    if only is not None and only != (kind, list(own), targ):
-                        continue
-                    case = {'group': list(group[:2]) + [list(pbits), pextra, dfetch], 'kind': kind, 'own': list(own), 'timeout_arg': targ}
-                    part.count('evaluations')
-                    stmt = make_statement(kind, own, env, stmt_retry)
-                    kw = {}
-                    if targ != 'omitted':
-                        kw['timeout'] = targ
-                    if env['ep_arg'] is not None:
-                        kw['execution_profile'] = env['ep_arg']
-                    n0 = len(srv.received)
-                    now = w.clock.now
-                    try:
-                        f = session.execute_async(stmt, **kw)
-                    except Exception as e:     # noqa
-                        part.violation('C46/raised/%s/%s' % (kind, type(e).__name__), 'execute_async raised %r for %r' % (e, case), case)
-                        continue
-                    timers = [(getattr(t.callback, '__name__', '?'), round(t.end - now, 6)) for t in w.live_timers()]
-                    w.pump()
-                    reqs = [(w.conns[vid].endpoint.address, r) for vid, _, r in srv.received[n0:] if r['op'] in ('QUERY', 'EXECUTE', 'BATCH')]
-                    # ---- expectation by the precedence rule
-                    e_cl = ref.effective(own_cl(s_cl) if s_cl else ref.UNSET, d['cl'])
-                    e_serial = ref.effective(CL.SERIAL if s_serial else ref.UNSET, d['serial'])
-                    e_retry = ref.effective(stmt_retry if s_retry else ref.UNSET, d['retry'])
-                    e_fetch = ref.effective(ref.UNSET if s_fetch == 'unset' else s_fetch, d['fetch'])
-                    e_timeout = ref.effective(ref.UNSET if targ == 'omitted' else targ, d['timeout'])
-                    where = '%s/%s' % (kind, 'legacy' if mode == 'legacy' else mode)
-                    overriding = sum([bool(s_cl), s_serial, s_retry, s_fetch != 'unset', targ != 'omitted'])
-                    if overriding and (any(pbits) or pextra):
-                        part.mark_nontrivial(repr((group, kind, own, targ)))
-                    part.outcome((kind, e_cl, e_serial, ref.wire_page_size(e_fetch) if kind != 'batch' else '-', e_timeout))
-
-                    def bad(option, level, got, want):
-                        part.violation('C46/%s/%s/%s' % (option, level, where),
-                                       '%s in effect (%s): %r, precedence rule gives %r [statement %s with own options cl=%s serial=%s retry=%s fetch_size=%r, '
-                                       'timeout argument %r; defaults (%s): %r; protocol v%d]'
-                                       % (option, level, got, want, kind, bool(s_cl), bool(s_serial), bool(s_retry), s_fetch, targ, mode,
-                                          dict((k, (v if not callable(v) else getattr(v, '__name__', repr(v)))) for k, v in d.items() if k != 'lbp'), pv), case)
-                    # ---- future attributes
-                    if f.message.consistency_level != e_cl:
-                        bad('consistency_level', 'future', f.message.consistency_level, e_cl)
-                    if f.message.serial_consistency_level != e_serial:
-                        bad('serial_consistency_level', 'future', f.message.serial_consistency_level, e_serial)
-                    if f._retry_policy is not e_retry:
-                        bad('retry_policy', 'future', f._retry_policy, e_retry)
-                    if kind != 'batch' and f.message.fetch_size != e_fetch:
-                        bad('fetch_size', 'future', f.message.fetch_size, e_fetch)
-                    if f.timeout != e_timeout:
-                        bad('timeout', 'future', f.timeout, e_timeout)
-                    if f.row_factory is not d['row_factory']:
-                        bad('row_factory', 'future', getattr(f.row_factory, '__name__', f.row_factory), d['row_factory'].__name__)
-                    if f._load_balancer is not d['lbp']:
-                        bad('load_balancing_policy', 'future', f._load_balancer, d['lbp'])
-                    plan = type(f._spec_execution_plan).__name__
-                    want_plan = 'ConstantSpeculativeExecutionPlan' if d['spec'] == 'constant' else 'NoSpeculativeExecutionPlan'
-                    if plan != want_plan:
-                        bad('speculative_execution_policy', 'future', plan, want_plan)
-                    # ---- timers armed for the request
-                    want_timers = []
-                    if d['spec'] == 'constant' and (e_timeout is None or e_timeout > 1.5):
-                        want_timers = [('_on_speculative_execute', 1.5)]
-                    elif e_timeout is not None:
-                        want_timers = [('_on_timeout', round(e_timeout, 6))]
-                    if timers != want_timers:
-                        bad('timeout', 'timer', timers, want_timers)
-                    # ---- the frame
-                    if len(reqs) != 1:
-                        part.violation('C46/frames/%s' % where, '%d request frames for one execution: %r, case %r' % (len(reqs), reqs, case), case)
-                        continue
-                    host, r = reqs[0]
-                    want_op = {'simple': 'QUERY', 'batch': 'BATCH'}.get(kind, 'EXECUTE')
-                    if r['op'] != want_op or r.get('trailing'):
-                        part.violation('C46/frames/%s' % where, 'frame %r for %r' % (r, case), case)
-                        continue
-                    if r.get('consistency') != e_cl:
-                        bad('consistency_level', 'wire', r.get('consistency'), e_cl)
-                    if not (kind == 'batch' and pv < 3) and r.get('serial_consistency') != e_serial:
-                        bad('serial_consistency_level', 'wire', r.get('serial_consistency'), e_serial)
-                    if kind != 'batch' and r.get('page_size') != ref.wire_page_size(e_fetch):
-                        bad('fetch_size', 'wire', r.get('page_size'), ref.wire_page_size(e_fetch))
-                    if host != d['first_host']:
-                        bad('load_balancing_policy', 'wire', host, d['first_host'])
-                    # ---- the rows, in the shape of the effective row factory
-                    if kind != 'batch':
-                        try:
-                            rows = f.result().current_rows
-                        except Exception as e:      # noqa
-                            part.violation('C46/result/%s/%s' % (where, type(e).__name__), 'result() raised %r for %r' % (e, case), case)
+                    for harg in (['lbp', 'explicit'] if paged else ['lbp']):
+                        if only is not None and only != (kind, list(own), targ, harg):
                             continue
-                        shape = 'dict' if rows and isinstance(rows[0], dict) else ('namedtuple' if rows and hasattr(rows[0], '_fields') else repr(rows))
-                        want_shape = 'dict' if d['row_factory'].__name__ == 'dict_factory' else 'namedtuple'
-                        if shape != want_shape:
-                            bad('row_factory', 'rows', shape, want_shape)
-                    part.sample(dict(case, frame=dict((k, r.get(k)) for k in ('op', 'consistency', 'serial_consistency', 'page_size')),
-                                     timeout=f.timeout, host=host), limit=1)
+                        run_case(part, env, group, kind, own, targ, harg, stmt_retry)
+                        leftover = env['w'].live_timers()
+                        if leftover:
+                            raise AssertionError('timers left armed after a case: %r' % (leftover,))
     finally:
         try:
             env['cluster'].shutdown()
         finally:
-            w.__exit__()
+            env['w'].__exit__()
     return part
 
 
 def groups(ctx):
     out = []
-    bits = list(itertools.product((0, 1), repeat=3))
+    bits = list(itertools.product((0, 1, 2), (0, 1), (0, 1)))
     if ctx.quick:
-        modes = ['profile-default', 'profile-named', 'legacy']
-        for mode in modes:
+        for mode in ['profile-default', 'profile-named', 'legacy']:
             for pv in (2, 4, 5):
                 for pb in bits:
-                    for pextra in (0, 1):
-                        out.append((mode, pv, pb, pextra, 'default' if (pb[0] + pextra) % 2 == 0 else 11))
+                    for pextra in (0, 1, 2, 3):
+                        # Session.default_fetch_size: every value with every mode x version x consistency default x profile-only variant
+                        out.append((mode, pv, pb, pextra, DFETCHES[(pextra + pb[1] + 2 * pb[2]) % 4]))
+        for pb in bits:
+            if pb[1] == pb[2]:
+                for pextra in (0, 1, 2, 3):
+                    out.append(('profile-clone', 4, pb, pextra, DFETCHES[(pextra + pb[1] + 2 * pb[2]) % 4]))
     else:
         for mode in ['profile-default', 'profile-named', 'profile-clone', 'legacy']:
             for pv in (2, 3, 4, 5):
                 for pb in bits:
-                    for pextra in (0, 1):
-                        for dfetch in ('default', 11, None, 0):
+                    for pextra in (0, 1, 2, 3):
+                        for dfetch in DFETCHES:
                             out.append((mode, pv, pb, pextra, dfetch))
     return out
 
@@ -329,19 +466,26 @@ def run(ctx):
     gs = ctx.rotate(groups(ctx))
     for part in ctx.pmap(run_group, gs):
         ctx.merge(part)
-    ctx.cov['rule'] = ('groups = configuration mode x protocol version x custom/default bits for consistency, serial consistency, retry policy x custom/default '
-                       'profile-only options x Session.default_fetch_size; per group every statement kind x own option combination x timeout argument; non-trivial = '
-                       'a case in which the statement (or the call) sets at least one option while at least one default is custom; %d groups' % len(gs))
+    ctx.cov['rule'] = ('groups = configuration mode x protocol version x consistency default {not given, THREE, ANY} x custom/not given for serial consistency, retry policy x '
+                       'profile-only options {not given, custom, request_timeout 0.0, request_timeout None} x Session.default_fetch_size%s; per group every statement kind x own '
+                       'option combination x timeout argument x (paged executions) routed by the policy / explicit host, each paged execution through 3 page requests; non-trivial = '
+                       'a case in which the statement (or the call) sets at least one option while at least one default is configured; %d groups'
+                       % (' (quick: one of {default, 11, 0, None} per group, chosen so that each occurs with every mode x version x consistency default x profile-only variant; '
+                          'cloned-instance mode for protocol 4 with serial/retry defaults both custom or both not given)' if ctx.quick else '', len(gs)))
     ctx.cov['exhaustive'] = True
     ctx.assume('statements are marked idempotent, so that a speculative execution plan is requested from the policy in effect')
     ctx.assume('fetch_size 0 and None both mean "no paging": the frame then carries no page size (a node treats a missing page size and a size <= 0 alike)')
     ctx.assume('a protocol-2 BATCH frame has no field for the serial consistency; it is not demanded on the wire there')
-    ctx.assume('the load-balancing policy in effect is observed through ResponseFuture._load_balancer and through the host that received the frame (first host of its plan)')
+    ctx.assume('the load-balancing policy in effect is observed through ResponseFuture._load_balancer and through the host that received each frame (first host of its plan); '
+               'an explicit host= names the target of every request of the execution')
+    ctx.assume('a timeout of 0.0 is a setting (the timer is armed for now + 0.0); virtual time does not pass while a request is in flight, so the request still completes')
+    ctx.assume('on a follow-up page the speculative plan of the execution may be used up: the speculative timer or the plain timeout timer (effective timeout) is accepted')
+    ctx.assume('not given means the documented default: LOCAL_ONE, no serial consistency, an instance of exactly RetryPolicy, 10.0 s, named_tuple_factory, fetch size 5000')
 
 
 def replay(ctx, data):
     g = data['group']
-    part = run_group((g[0], g[1], tuple(g[2]), g[3], g[4]), only=(data['kind'], list(data['own']), data['timeout_arg']))
+    part = run_group((g[0], g[1], tuple(g[2]), g[3], g[4]), only=(data['kind'], list(data['own']), data['timeout_arg'], data.get('host_arg', 'lbp')))
     for fp, what, _ in part.violations:
         print(fp, '::', what)
     return bool(part.violations)
